@@ -165,6 +165,21 @@ PROPS = {
         "correspondence": "real Solver::solve (SLG, recursive) vs Sem contract on horn_assoc(program)",
         "explanation": "translation validation of solver answers by a certified checker",
     },
+    "C21": {
+        "level": "translation_validation",
+        "rule": "200 generated programs: 2-4 traits in supertrait chains/forks, structs with where-clauses and fields (a wrapper struct with or without the bound its field needs), "
+                "impls for S0/u32/S1<P0> closed under supertraits or with one supertrait impl or one bound missing (about 40% broken on purpose); the real checked_program() decides; "
+                "every ACCEPTED program is checked by judge-wf: for every trait where-clause `wf(Self),Tr(Self..) => W` and every struct field `wf(S<x>) => wf(field)`, over all closed "
+                "types to depth 2 (capped at 200 instantiations each), premises and conclusion decided by the certified evaluator; non-trivial = accepted programs",
+        "technique": "certified bounded check: Lean 4 evaluator (Stage A) decides premises and conclusions; theorem rejected_is_counterexample makes every rejection a proved violation; the universal meta-theorem is not proved",
+        "claim": "For each accepted program no instantiation (within the stated bound) has certified-true premises and a certified-false implied bound; a rejection exhibits an accepted "
+                 "program with such an instantiation (proved counterexample to the property).  Well-formedness of a type is read hereditarily (the struct's where-clauses hold and its arguments are well-formed).",
+        "note": "Partial: the statement for ALL well-formed types (meta-theorem of implied bounds) is not a theorem here; the check is bounded (depth 2, 200 instantiations per implication) and says so in "
+                "the evidence. Trusted: Lean kernel, horn.rs (wf clauses and implications), Stage-A theorems. A first version of the oracle read WellFormed(S<T>) non-hereditarily and raised false "
+                "alarms on accepted programs; corrected (DESIGN section 12).",
+        "correspondence": "real wf checker (accept/reject) + Sem.evalInd on horn_wf(program)",
+        "explanation": "bounded certified validation of accepted programs",
+    },
     "C28": {
         "level": "translation_validation",
         "rule": "every goal of every program block of /repo/tests/test/*.rs (types, lifetimes and constants as unknowns, nested forall, associated types, built-ins ...) plus 100 generated "
